@@ -8,6 +8,7 @@ import (
 	"crypto/rsa"
 	"crypto/sha256"
 	"embed"
+	"encoding/pem"
 	"fmt"
 	"math/big"
 	"strings"
@@ -155,6 +156,98 @@ func RefUnwrapper(k Key) ref.Unwrapper {
 		return ref.ByEd25519(EdKey(k.K))
 	case "r":
 		return ref.ByRSA(RSAKey(k.K))
+	}
+	panic("world: bad key type " + k.T)
+}
+
+// ---------- the same keys through the text parsers ----------
+
+var pemOnce sync.Once
+var edPEM [][]byte
+
+func edPrivatePEM(k int) []byte {
+	pemOnce.Do(func() {
+		// (marshalling draws padding check values from crypto/rand: done once, never under a tape)
+		for i := 0; i < NEd; i++ {
+			blk, err := ssh.MarshalPrivateKey(EdKey(i), "")
+			must(err)
+			edPEM = append(edPEM, pem.EncodeToMemory(blk))
+		}
+	})
+	return edPEM[k]
+}
+
+// keyFileText lays out lines as a key/recipients file in one of three shapes; it returns the text and the
+// index of "ours" among the parsed entries.
+func keyFileText(ours, other string, via int) (string, int) {
+	switch via {
+	case 1:
+		return "# a comment\n\n" + other + "\n# another\n" + ours + "\n", 1
+	case 2:
+		return "# a comment\r\n\r\n" + other + "\r\n" + ours + "\r\n", 1
+	default:
+		return ours + "\n" + other, 0 // no final newline
+	}
+}
+
+// RecipientVia builds the recipient through the text parsers the CLI and applications use
+// (age.ParseRecipients, agessh.ParseRecipient) when via > 0; via == 0 is Recipient.
+func RecipientVia(k Key, via int) age.Recipient {
+	if via == 0 || k.T == "s" {
+		return Recipient(k)
+	}
+	switch k.T {
+	case "x":
+		ours := ref.Bech32Encode("age", ref.X25519Public(X25519Secret(k.K)))
+		other := ref.Bech32Encode("age", ref.X25519Public(X25519Secret((k.K+1)%NX25519)))
+		text, idx := keyFileText(ours, other, via)
+		rs, err := age.ParseRecipients(strings.NewReader(text))
+		must(err)
+		return rs[idx]
+	case "e", "r":
+		var pk ssh.PublicKey
+		var err error
+		if k.T == "e" {
+			pk, err = ssh.NewPublicKey(EdKey(k.K).Public())
+		} else {
+			pk, err = ssh.NewPublicKey(&RSAKey(k.K).PublicKey)
+		}
+		must(err)
+		line := strings.TrimSpace(string(ssh.MarshalAuthorizedKey(pk)))
+		switch via {
+		case 1:
+			line += " user@host"
+		case 2:
+			line += " a comment with spaces\n"
+		}
+		r, err := agessh.ParseRecipient(line)
+		must(err)
+		return r
+	}
+	panic("world: bad key type " + k.T)
+}
+
+// IdentityVia: age.ParseIdentities / agessh.ParseIdentity (unencrypted PEM) when via > 0.
+func IdentityVia(k Key, via int) age.Identity {
+	if via == 0 || k.T == "s" {
+		return Identity(k)
+	}
+	switch k.T {
+	case "x":
+		ours := strings.ToUpper(ref.Bech32Encode("AGE-SECRET-KEY-", X25519Secret(k.K)))
+		other := strings.ToUpper(ref.Bech32Encode("AGE-SECRET-KEY-", X25519Secret((k.K+1)%NX25519)))
+		text, idx := keyFileText(ours, other, via)
+		ids, err := age.ParseIdentities(strings.NewReader(text))
+		must(err)
+		return ids[idx]
+	case "e":
+		i, err := agessh.ParseIdentity(edPrivatePEM(k.K))
+		must(err)
+		return i
+	case "r":
+		i, err := agessh.ParseIdentity(Fixture(fmt.Sprintf("rsa%d.pem", k.K)))
+		must(err)
+		return i
 	}
 	panic("world: bad key type " + k.T)
 }
